@@ -342,3 +342,16 @@ func (e *Engine) ownPkgFn(fn *ssa.Function) bool {
 	pk := e.fnPkg(fn)
 	return pk != nil && e.ownPkg(pk.Pkg.Path())
 }
+
+func (e *Engine) tryResolveType(pkg *types.Package, text string) (t types.Type, err error) {
+	defer func() {
+		if r := recover(); r != nil {
+			if se, ok := r.(specErr); ok {
+				err = fmt.Errorf("%s", se.msg)
+				return
+			}
+			panic(r)
+		}
+	}()
+	return e.resolveType(pkg, text), nil
+}
